@@ -52,6 +52,8 @@ pub struct Log {
     pub events: Mutex<Vec<Ev>>,
     pub seq: AtomicU64,
     pub processed: AtomicU64,
+    /// frames that reached the `WorkerDequeue` point (in flight inside a worker = dequeued - processed)
+    pub dequeued: AtomicU64,
     pub perturb_seed: AtomicU64,
     /// 0 = no perturbation; otherwise 1/n of the points yield or sleep
     pub perturb_rate: AtomicU64,
@@ -61,6 +63,7 @@ static LOG: Log = Log {
     events: Mutex::new(Vec::new()),
     seq: AtomicU64::new(0),
     processed: AtomicU64::new(0),
+    dequeued: AtomicU64::new(0),
     perturb_seed: AtomicU64::new(0),
     perturb_rate: AtomicU64::new(0),
 };
@@ -78,6 +81,9 @@ fn on_point(site: Site, worker: usize, packet: &[u8]) {
     }
     if site == Site::WorkerProcessed {
         l.processed.fetch_add(1, Ordering::SeqCst);
+    }
+    if site == Site::WorkerDequeue {
+        l.dequeued.fetch_add(1, Ordering::SeqCst);
     }
     let rate = l.perturb_rate.load(Ordering::Relaxed);
     if rate > 0 {
@@ -135,6 +141,7 @@ pub fn reset_log(perturb_seed: u64, perturb_rate: u64) {
     }
     l.seq.store(0, Ordering::SeqCst);
     l.processed.store(0, Ordering::SeqCst);
+    l.dequeued.store(0, Ordering::SeqCst);
     l.perturb_seed.store(perturb_seed, Ordering::SeqCst);
     l.perturb_rate.store(perturb_rate, Ordering::SeqCst);
 }
@@ -393,10 +400,17 @@ pub fn wait_drain(n: u64, watchdog: Duration, queued_now: &dyn Fn() -> usize) ->
             last = p;
             last_change = Instant::now();
         }
-        if last_change.elapsed() > Duration::from_secs(2) && queued_now() == 0 {
+        // idle = nothing waits in a queue AND nothing is in flight inside a worker (every frame
+        // that reached the dequeue point also reached the processed point) AND nothing has moved
+        // for 2 s.  The first two are logical facts read from the hook counters; the time only
+        // covers the instant between two frames of one batch.  Under the interpreter, where a
+        // thread may take seconds for that instant, no idle verdict is given at all: the run
+        // ends at the watchdog as inconclusive.
+        let in_flight = || log().dequeued.load(Ordering::SeqCst) != log().processed.load(Ordering::SeqCst);
+        if !cfg!(miri) && last_change.elapsed() > Duration::from_secs(2) && queued_now() == 0 && !in_flight() {
             // re-check once more after the queue observation to avoid a race with a last frame
             std::thread::sleep(Duration::from_millis(50));
-            if log().processed.load(Ordering::SeqCst) == last && queued_now() == 0 {
+            if log().processed.load(Ordering::SeqCst) == last && queued_now() == 0 && !in_flight() {
                 return Drain::IdleShort;
             }
         }
